@@ -217,9 +217,9 @@ func (newscat *NewsCategoryListData15) Read(p []byte) (int, error) {
 		return 0, io.EOF // All bytes have been read
 	}
 
-	n := copy(p, out)
+	n := copy(p, out[newscat.readOffset:])
 
-	newscat.readOffset = n
+	newscat.readOffset += n
 
 	return n, nil
 }
